@@ -309,12 +309,16 @@ type EnvScalars struct {
 	Nf   ZNamedFast                       // named func type of the fast shape: not fast
 	Fe   func(...interface{}) error       // result of interface kind, but not interface{}: not fast
 	Fg   func(...ZStringer) interface{}   // variadic over a non-empty interface: not fast
-	PFi  *func(int) int                   // pointer to a function
-	PS   *[]int                           // pointer to a slice
-	PA   *[3]int                          // pointer to an array
-	PPSt **ZA                             // two pointer levels
-	Sg   ZStringer                        // a non-empty interface ...
-	Zs   zstr                             // ... and a type implementing it (assignable one way only)
+	PI   *int                             // pointers to scalars: the checker dereferences operand types
+	PF64 *float64
+	PStr *string
+	NPI  *int           // nil
+	PFi  *func(int) int // pointer to a function
+	PS   *[]int         // pointer to a slice
+	PA   *[3]int        // pointer to an array
+	PPSt **ZA           // two pointer levels
+	Sg   ZStringer      // a non-empty interface ...
+	Zs   zstr           // ... and a type implementing it (assignable one way only)
 }
 
 func (EnvScalars) Mi(a int, b string) int           { return a + len(b) }
@@ -359,7 +363,7 @@ func zooSpecial(v reflect.Value) {
 		f := v.Field(i)
 		if v.Type().Field(i).Name == "IFn" && f.CanSet() {
 			f.Set(reflect.ValueOf(func(i int) int { return i + 1 }))
-		} else if v.Type().Field(i).Name == "NilPF" && f.CanSet() {
+		} else if (v.Type().Field(i).Name == "NilPF" || v.Type().Field(i).Name == "NPI") && f.CanSet() {
 			f.Set(reflect.Zero(f.Type()))
 		} else if v.Type().Field(i).Name == "PIFn" && f.CanSet() {
 			var fn interface{} = func(i int) int { return i + 1 }
